@@ -21,6 +21,7 @@ WeeksOf(ev) == LET f == FnOf(ev.weeks) IN [k \in DOMAIN f |-> Pairs(f[k])]
 \* get_year_as_day_sch
 TExpand ==
   /\ IsEvent("Expand")
+  /\ Chk("RepetitionCountsWithinTheCalendar", ~("absurd" \in DOMAIN Ev))
   /\ LET P == Pairs(Ev.periods)  W == WeeksOf(Ev) IN
      /\ Chk("ExpansionLengthIsSumOfPeriods", WellFormed(P, W) => Len(Ev.got) = Total(P))
      /\ Chk("DayTakesWeekdaySlotOfItsPeriod", WellFormed(P, W) => Ev.got = Expand(P, W))
